@@ -124,7 +124,13 @@ type Block struct {
 	Header
 	// AMEV is true for a final block built from a processed pre-block.
 	AMEV bool
-	Txs  []dbft.Transaction[H]
+	// ShareBound: the final block depends on WHICH pre-commit shares its builder used (Shares, a bit per validator
+	// index), as with the pinned suite's newAMEVBlockFromContext, which derives a transaction from the first M
+	// current-view pre-commits it finds in the context.  Two blocks built from one pre-block at different moments may
+	// then differ, so a library that builds the block twice hands over something else than what the commits signed.
+	ShareBound bool
+	Shares     uint64
+	Txs        []dbft.Transaction[H]
 	Sig  []byte
 	// SignCalls counts Sign invocations (observed by monitors).
 	OnSign func(b *Block, key dbft.PrivateKey)
@@ -138,7 +144,19 @@ func (b *Block) domain() string {
 	}
 	return "blk"
 }
-func (b *Block) Hash() H       { return Sum(b.HashData(b.domain())) }
+func (b *Block) Hash() H       { return Sum(b.sigData()) }
+
+// sigData is what the hash and the signatures cover.
+func (b *Block) sigData() []byte {
+	d := b.HashData(b.domain())
+	if b.ShareBound {
+		var x [9]byte
+		x[0] = 's'
+		binary.LittleEndian.PutUint64(x[1:], b.Shares)
+		d = append(d, x[:]...)
+	}
+	return d
+}
 func (b *Block) PrevHash() H   { return b.Prev }
 func (b *Block) MerkleRoot() H { return Sum(b.HashData("mrk")) }
 func (b *Block) Index() uint32 { return b.Idx }
@@ -152,7 +170,7 @@ func (b *Block) Sign(key dbft.PrivateKey) error {
 	if !ok {
 		return errors.New("vt: no private key")
 	}
-	b.Sig = Mac("sig", int(k), b.HashData(b.domain()))
+	b.Sig = Mac("sig", int(k), b.sigData())
 	if SaltedSigs {
 		SigSalt++
 		b.Sig = binary.LittleEndian.AppendUint64(b.Sig, SigSalt)
@@ -167,7 +185,7 @@ func (b *Block) Verify(key dbft.PublicKey, sign []byte) error {
 	if len(sign) != macLen && !(SaltedSigs && len(sign) == macLen+8) {
 		return errors.New("vt: bad signature length")
 	}
-	if !bytes.Equal(Mac("sig", int(k), b.HashData(b.domain())), sign[:macLen]) {
+	if !bytes.Equal(Mac("sig", int(k), b.sigData()), sign[:macLen]) {
 		return errors.New("vt: bad signature")
 	}
 	return nil
@@ -176,7 +194,7 @@ func (b *Block) Transactions() []dbft.Transaction[H]       { return b.Txs }
 func (b *Block) SetTransactions(txs []dbft.Transaction[H]) { b.Txs = txs }
 
 // SignFor is the signature identity id would produce for this block.
-func (b *Block) SignFor(id int) []byte { return Mac("sig", id, b.HashData(b.domain())) }
+func (b *Block) SignFor(id int) []byte { return Mac("sig", id, b.sigData()) }
 
 // PreDataTxOnly selects what a pre-commit share is bound to: the whole pre-block content (false) or, as with
 // NeoX's threshold decryption shares, only the height and the transaction list (true) - then the shares for two
